@@ -5,8 +5,12 @@ package props
 import (
 	"encoding/json"
 	"fmt"
+	"os"
+	"sync/atomic"
 	"testing"
 	"time"
+
+	"github.com/mk6i/mkdb/storage"
 
 	"pgregory.net/rapid"
 
@@ -16,8 +20,9 @@ import (
 )
 
 type c18Case struct {
-	State string   `json:"state"` // ok | nouse | faileduse | emptydb
-	SQL   []string `json:"sql"`
+	State  string   `json:"state"` // ok | nouse | faileduse | emptydb | timer
+	SQL    []string `json:"sql"`
+	ParkAt int      `json:"park_at,omitempty"` // timer state: hold a statement open at its k-th page lookup
 }
 
 // the schema the statements run against: names come from the pools the
@@ -54,7 +59,15 @@ var c18Targeted = []string{
 
 func c18Gen(rt *rapid.T) c18Case {
 	c := c18Case{State: rapid.SampledFrom([]string{"ok", "ok", "ok", "ok", "nouse", "faileduse", "emptydb"}).Draw(rt, "state")}
+	if rapid.IntRange(0, 199).Draw(rt, "timerstate") == 137 { // (a mid-range value: rapid favours the ends of a range)
+		c.State = "timer" // slow by nature (real time): one case in a hundred
+	}
 	n := rapid.IntRange(5, 40).Draw(rt, "nstmts")
+	if c.State == "timer" {
+		// real flush timer; up to three statements are held open for 130 ms at a page lookup
+		n = rapid.IntRange(3, 10).Draw(rt, "nstmts_timer")
+		c.ParkAt = rapid.IntRange(1, 8).Draw(rt, "parkat")
+	}
 	for i := 0; i < n; i++ {
 		if rapid.IntRange(0, 4).Draw(rt, "targeted") == 0 {
 			c.SQL = append(c.SQL, rapid.SampledFrom(c18Targeted).Draw(rt, "tq"))
@@ -64,6 +77,8 @@ func c18Gen(rt *rapid.T) c18Case {
 	}
 	return c
 }
+
+var c18Statement int64 // 1 while a generated statement (not the setup) is executing
 
 func c18Run(c c18Case, st *vlib.Stats) string {
 	dir := CaseDir("c18")
@@ -76,6 +91,24 @@ func c18Run(c c18Case, st *vlib.Stats) string {
 		return "setup failed: " + err.Error()
 	}
 	switch c.State {
+	case "timer":
+		// like "ok", but with the real 100 ms flush timer running: a statement that is still
+		// working when a tick falls due must neither crash nor block for ever
+		storage.VerifNoTimer = false
+		var parks, lookups int64
+		storage.VerifHook = func(point string, arg uint64) {
+			if point == "page.fetch" && atomic.AddInt64(&lookups, 1)%int64(c.ParkAt+7) == int64(c.ParkAt) && atomic.LoadInt64(&parks) < 2 && atomic.LoadInt64(&c18Statement) == 1 {
+				atomic.AddInt64(&parks, 1)
+				time.Sleep(120 * time.Millisecond)
+			}
+		}
+		defer func() { storage.VerifNoTimer = true; storage.VerifHook = nil }()
+		eng.Exec("USE " + DBName)
+		for _, s := range c18Setup {
+			if err := eng.Exec(s); err != nil {
+				return fmt.Sprintf("setup statement %q failed: %v", s, err)
+			}
+		}
 	case "ok":
 		eng.Exec("USE " + DBName)
 		for _, s := range c18Setup {
@@ -94,13 +127,22 @@ func c18Run(c c18Case, st *vlib.Stats) string {
 	}
 	for i, q := range c.SQL {
 		done := make(chan error, 1)
+		atomic.StoreInt64(&c18Statement, 1)
 		go func() { done <- eng.Exec(q) }()
 		var err error
 		select {
 		case err = <-done:
 		case <-time.After(20 * time.Second):
-			return fmt.Sprintf("statement %d did not return within 20 s (session state %s): %q", i, c.State, q)
+			// a hung statement cannot be abandoned (its goroutine holds locks and the store): report
+			// the case as it is and end this worker - no shrinking, the schedule is part of the cause
+			msg := fmt.Sprintf("statement %d did not return within 20 s (session state %s): %q", i, c.State, q)
+			cb, _ := json.Marshal(c)
+			st.Fail(msg, cb)
+			st.Write(Cfg, "C18")
+			vlib.Logf("FAIL C18: %s", msg)
+			os.Exit(1)
 		}
+		atomic.StoreInt64(&c18Statement, 0)
 		if mk.IsPanic(err) {
 			return fmt.Sprintf("statement %d crashed the engine (session state %s): %q\n%v", i, c.State, q, err)
 		}
@@ -118,7 +160,7 @@ func c18Run(c c18Case, st *vlib.Stats) string {
 			b, _ := json.Marshal(map[string]string{"state": c.State, "sql": q, "outcome": label})
 			return b
 		}, label, "state-"+c.State)
-		if c.State == "ok" && i%7 == 6 {
+		if (c.State == "ok" || c.State == "timer") && i%7 == 6 {
 			// the session must still answer (a generated USE may have selected
 			// another database, so select the populated one again first)
 			if err := eng.Exec("USE " + DBName); err != nil {
